@@ -82,6 +82,11 @@ def gen_case(rng, thorough):
                 if "tags" in f: ops.append({"op": "search", "pattern": {"tags": [rng.choice(f["tags"])]}, "inherited": False})
             else:
                 ops.append({"op": "addFact", "id": fid, "fact": f})
+        elif r < 0.385:
+            # an overwrite that is REFUSED after the state has looked at what it replaces (a rule body the rule index cannot take:
+            # no `when`, or a `when` whose array is not sortable): the stored fact stays stored, indexed and searchable as it was
+            bad = rng.choice([{"rule": {"action": {"code": "(1)"}}}, {"rule": {"when": {"pattern": {"a": ["?x", 1]}}, "action": {"code": "(1)"}}}])
+            ops.append({"op": "addFact", "id": rng.choice(FIDS), "fact": dict(bad, k=gen.scalar(rng))})
         elif r < 0.47:
             ops.append({"op": "remFact", "id": rng.choice(FIDS + ["!f1.p", "ghost"])})
         elif r < 0.60:
